@@ -394,6 +394,9 @@ func init() {
 				{Scenario: "sbuf.bfs", Params: vx.P("n", "7"), Weight: 3},
 				{Scenario: "sbuf.sched", Params: vx.P("n", "3"), Bound: -1, BudgetS: 100, Weight: 4},
 				{Scenario: "sbuf.sched", Params: vx.P("n", "3", "crosscheck", "1"), Bound: 2, BudgetS: 100, Weight: 4},
+				// two deliverers (one receive loop per connection) feeding the same stream's buffer concurrently
+				{Scenario: "mux.transfer", Params: vx.P("conns", "2", "streams", "1", "writes", "4,4,4", "unit", "4"), Bound: 1, BudgetS: 100, Weight: 6},
+				{Scenario: "mux.transfer", Params: vx.P("conns", "3", "streams", "1", "writes", "9", "rbuf", "3", "delay", "1"), Bound: 2, BudgetS: 100, Weight: 6},
 			}
 		}
 		return []vx.Job{
@@ -404,6 +407,8 @@ func init() {
 			{Scenario: "sbuf.bfs", Params: vx.P("n", "10"), Weight: 5},
 			{Scenario: "sbuf.sched", Params: vx.P("n", "3"), Bound: -1, BudgetS: 900, Weight: 4},
 			{Scenario: "sbuf.sched", Params: vx.P("n", "4"), Bound: 3, BudgetS: 900, Weight: 6},
+			{Scenario: "mux.transfer", Params: vx.P("conns", "2", "streams", "1", "writes", "4,4,4", "unit", "4"), Bound: 2, BudgetS: 900, Weight: 6},
+			{Scenario: "mux.transfer", Params: vx.P("conns", "3", "streams", "1", "writes", "9", "rbuf", "3", "delay", "1"), Bound: 3, BudgetS: 900, Weight: 6},
 		}
 	})
 }
